@@ -49,7 +49,10 @@ Inductive expr :=
 | EStruct (p : rpath) (fs : list (string * expr)) (trailing : bool)   (* P { a: e, b: e[,] } *)
 | EMacro (name : string) (args : toks)    (* name!(args) *)
 | ELet (mutbl : bool) (x : string) (e : expr)   (* statement: let [mut] x = e; *)
-| ESemi (e : expr).                       (* statement: e; *)
+| ESemi (e : expr)                        (* statement: e; *)
+| ECallT (f : expr) (args : list expr)    (* f(a, b,) : call / tuple constructor, a comma after EVERY argument *)
+| EMatchC (scrut : expr) (arms : list (pat * expr)).
+                                          (* match whose every arm ends in a comma, block arms included: `p => { .. },` *)
 
 Definition block := list expr.
 
